@@ -15,6 +15,7 @@ import (
 
 	"verif/harness/bx"
 	"verif/harness/gen"
+	"verif/harness/tok"
 )
 
 // C11 — WithMaxExpressions is an exact, monotone budget on parser work.
@@ -121,7 +122,7 @@ func c11Sweep(t failer, test string, in []byte) (n uint64, feasible bool, nbudge
 }
 
 func init() {
-	for _, n := range []string{"TestC11_Random", "TestC11_Nesting"} {
+	for _, n := range []string{"TestC11_Random", "TestC11_Nesting", "TestC11_Huge"} {
 		n := n
 		replayers[n] = func(t *testing.T, raw json.RawMessage) {
 			var c c11Case
@@ -206,4 +207,97 @@ func TestC11_Random(t *testing.T) {
 		r.Case(in, true, map[string]interface{}{"input": strconv.QuoteToASCII(clip(in, 120)), "N": N, "feasible": feasible, "budgets": nb}, fmt.Sprintf("feasible:%v", feasible))
 		r.Count("budget-evaluations", int64(nb))
 	})
+}
+
+// TestC11_Huge: inputs whose parse is long because they are LONG, not because they are
+// pathological - generated filters with tens of thousands of clauses (`ID == 0 or ID == 1 or
+// ...`), runs of `not`, selectors with thousands of parts. N is measured by the unlimited
+// parse; every budget >= N (N, N+1, 2^40, 2^63, MaxUint64) gives the unlimited result through
+// grammar.Parse and CreateEvaluator, N-1 and N/2 give the max-expressions error after n+1 steps.
+func TestC11_Huge(t *testing.T) {
+	r := rec(t, "C11", c11Rule+"; TestC11_Huge: flat chains of 20000..140000 operands, 70000 `not`, 20000-part selectors (10^6..4x10^7 steps): budgets N-1, N/2 fail after n+1 steps; N, N+1, 2^40, 2^63, MaxUint64 give the unlimited result")
+	sizes := []int{70000}
+	budgets := []uint64{0, math.MaxUint64} // 0 stands for N
+	if thorough {
+		sizes = []int{20000, 70000, 140000}
+		budgets = []uint64{0, 1, 1 << 40, 1 << 63, math.MaxUint64} // 1 stands for N+1
+	}
+	shard, shards := tok.ShardOf()
+	var ins []string
+	for _, n := range sizes {
+		var sb strings.Builder
+		for i := 0; i < n; i++ {
+			sb.WriteString("ID == " + strconv.Itoa(i) + " or ")
+		}
+		sb.WriteString("ID == -1")
+		ins = append(ins, sb.String(), strings.Repeat("a == 1 and ", n)+"b != 2", strings.Repeat("not ", n|1)+"a == 1")
+	}
+	ins = append(ins, "a"+strings.Repeat(".b", 20000)+" == 1", "any xs as x { "+strings.Repeat("x == 1 or ", 30000)+"x == 2 }")
+	for idx, in := range ins {
+		if idx%shards != shard {
+			continue
+		}
+		c := &c11Case{Input: []byte(in), InputQ: strconv.QuoteToASCII(clip(in, 120))}
+		uAST, uErr, N := grammar.ParseWithStats("", []byte(in))
+		if uErr != nil {
+			t.Fatalf("harness: huge input rejected: %v", uErr)
+		}
+		for _, b := range budgets {
+			if b <= 1 {
+				b += N
+			}
+			ast, err, steps := grammar.ParseWithStats("", []byte(in), grammar.MaxExpressions(b))
+			if err != nil || !reflect.DeepEqual(ast, uAST) || steps != N {
+				violation(t, "C11", "TestC11_Huge", c, "budget %d >= N=%d on a %d-byte input (%s): error %v after %d steps; the unlimited parse succeeds", b, N, len(in), c.InputQ, err, steps)
+			}
+			if b == N || b == math.MaxUint64 {
+				ev, cerr := bexpr.CreateEvaluator(in, bexpr.WithMaxExpressions(b))
+				if cerr != nil || ev == nil || !c11SameShape(ev.VerifAST(), uAST.(grammar.Expression)) {
+					violation(t, "C11", "TestC11_Huge", c, "CreateEvaluator with budget %d >= N=%d on a %d-byte input (%s): error %v", b, N, len(in), c.InputQ, cerr)
+				}
+			}
+		}
+		for _, b := range []uint64{N - 1, N / 2} {
+			if b == N/2 && !thorough {
+				continue
+			}
+			ast, err, steps := grammar.ParseWithStats("", []byte(in), grammar.MaxExpressions(b))
+			if err == nil || ast != nil || !strings.Contains(err.Error(), c11MaxMsg) || steps != b+1 {
+				violation(t, "C11", "TestC11_Huge", c, "budget %d < N=%d on a %d-byte input (%s): want the max-expressions error after n+1 steps, got error %v after %d steps", b, N, len(in), c.InputQ, err, steps)
+			}
+		}
+		r.Case(in, true, map[string]interface{}{"input": clip(in, 60), "length": len(in), "N": N}, fmt.Sprintf("N>=%d", N/1000000*1000000))
+	}
+}
+
+// c11SameShape compares two trees node by node, iteratively along the right spine (the trees of
+// flat chains are as deep as the chain is long); compiled regular expressions are ignored.
+func c11SameShape(a, b grammar.Expression) bool {
+	for {
+		switch x := a.(type) {
+		case *grammar.BinaryExpression:
+			y, ok := b.(*grammar.BinaryExpression)
+			if !ok || x.Operator != y.Operator || !c11SameShape(x.Left, y.Left) {
+				return false
+			}
+			a, b = x.Right, y.Right
+		case *grammar.UnaryExpression:
+			y, ok := b.(*grammar.UnaryExpression)
+			if !ok || x.Operator != y.Operator {
+				return false
+			}
+			a, b = x.Operand, y.Operand
+		case *grammar.MatchExpression:
+			y, ok := b.(*grammar.MatchExpression)
+			return ok && x.Operator == y.Operator && reflect.DeepEqual(x.Selector, y.Selector) && (x.Value == nil) == (y.Value == nil) && (x.Value == nil || x.Value.Raw == y.Value.Raw)
+		case *grammar.CollectionExpression:
+			y, ok := b.(*grammar.CollectionExpression)
+			if !ok || x.Op != y.Op || x.NameBinding != y.NameBinding || !reflect.DeepEqual(x.Selector, y.Selector) {
+				return false
+			}
+			a, b = x.Inner, y.Inner
+		default:
+			return a == nil && b == nil
+		}
+	}
 }
